@@ -2,6 +2,11 @@
 // docs/binary.md "Chunks": name (4 bytes), compressed length u32 LE, uncompressed length
 // u32 LE, 4 reserved zero bytes, payload. Compressed length 0 means "not compressed".
 
+/// Read access to the bytes a ChunkBuilder has collected (private field), for the R3 arm harnesses.
+pub(crate) fn buffer_of(cb: &ChunkBuilder) -> &[u8] {
+    &cb.buffer
+}
+
 /// `format!` on error paths dominates CBMC cost; the message text is not part of any
 /// obligation, so it is replaced by an empty string (assumption listed in the evidence).
 pub(super) fn fmt_stub(_args: core::fmt::Arguments<'_>) -> String {
